@@ -65,6 +65,20 @@ def oracle(script: dict, run: Any) -> List[Violation]:
         if e[3] == "start" and shutdown_at is not None and e[0] > shutdown_at[0]:
             out.append(Violation("C18/start-after-shutdown", f"a process was started at tick {e[1]} after the shutdown action was handled"))
             return out
+    # ---- every signal delivered to the manager's handler (and every file change) puts its action on the queue
+    for i, e in enumerate(ev):
+        want_type = None
+        if e[3] == "inject_signal" and e[4]["handled"]:
+            want_type = "ReloadAllAction" if e[4]["sig"] == "SIGHUP" else "ShutdownAction"
+        elif e[3] == "inject_file_change":
+            want_type = "ReloadAllAction"
+        if want_type is None:
+            continue
+        nxt = next((x for x in ev[i + 1:] if x[3] != "pt"), None)
+        if nxt is None or nxt[3] != "put" or nxt[4]["item"]["type"] != want_type:
+            what = e[4].get("sig", "file change")
+            out.append(Violation("C18/signal-request-dropped", f"{what} delivered at tick {e[1]} did not put a {want_type} on the action queue"))
+            return out
     # ---- every dequeued reload-all request is expanded into one per-slot reload action for every slot
     for i, e in enumerate(ev):
         if e[3] == "get" and e[4]["item"]["type"] == "ReloadAllAction":
